@@ -102,6 +102,62 @@ impl ImgSpec {
 	}
 }
 
+/// The header of `spec` with, in half of the calls, the fields the parser has no business looking at re-drawn:
+/// FileHeader {Machine (rarely), TimeDateStamp, symbol table, Characteristics}, linker/OS/image/subsystem versions,
+/// SizeOfCode.., AddressOfEntryPoint, BaseOfCode/BaseOfData, SectionAlignment / FileAlignment (equal, swapped, tiny,
+/// zero), Win32VersionValue, Subsystem, DllCharacteristics, stack/heap sizes, LoaderFlags.  Everything the models
+/// read (signatures, magic, e_lfanew, counts, SizeOfOptionalHeader, ImageBase, SizeOfImage, SizeOfHeaders, CheckSum,
+/// data directories, section table) is left exactly as `header_bytes` wrote it.  A behaviour that depends on one of
+/// the re-drawn fields (a "fast path" keyed on the alignment pair, say) is then visible to the correspondence.
+pub fn scrambled_header(spec: &ImgSpec, rng: &mut Rng) -> Vec<u8> {
+	let fresh = spec.header_bytes();
+	if !rng.chance(1, 2) {
+		return fresh;
+	}
+	let mut b = fresh.clone();
+	let nt = spec.e_lfanew as usize;
+	let o = nt + 24;
+	let lim = (o + spec.opt_size as usize).min(b.len());
+	let mut put = |b: &mut Vec<u8>, off: usize, v: &[u8], lim: usize| {
+		if off + v.len() <= lim { b[off..off + v.len()].copy_from_slice(v); }
+	};
+	let r32v = |rng: &mut Rng| -> u32 { match rng.below(6) { 0 => 0, 1 => 0xFFFF_FFFF, 2 => 0x1000, 3 => rng.below(0x10000) as u32, _ => rng.next() as u32 } };
+	let flim = b.len().min(nt + 24);
+	if rng.chance(1, 8) { let m = *rng.pick(&[0u16, 0x014c, 0x8664, 0xaa64, 0x01c4, 0xFFFF]); put(&mut b, nt + 4, &m.to_le_bytes(), flim); }
+	for off in [8usize, 12, 16] { let v = r32v(rng); put(&mut b, nt + off, &v.to_le_bytes(), flim); }
+	{ let v = rng.next() as u16; put(&mut b, nt + 22, &v.to_le_bytes(), flim); }
+	{ let v = rng.next() as u16; put(&mut b, o + 2, &v.to_le_bytes(), lim); }
+	for off in [4usize, 8, 12, 16, 20] { let v = r32v(rng); put(&mut b, o + off, &v.to_le_bytes(), lim); }
+	if !spec.pe64 { let v = r32v(rng); put(&mut b, o + 24, &v.to_le_bytes(), lim); }
+	let (sa, fa): (u32, u32) = match rng.below(10) {
+		0 => (0x200, 0x200), 1 => (0x1000, 0x1000), 2 => (4, 4), 3 => (0, 0), 4 => (1, 1), 5 => (0x200, 0x1000),
+		6 => (0x1000, 4), 7 => (0x2000, 0x200), 8 => { let x = 1u32 << rng.below(17); (x, x) }, _ => (rng.next() as u32, rng.next() as u32),
+	};
+	put(&mut b, o + 32, &sa.to_le_bytes(), lim);
+	put(&mut b, o + 36, &fa.to_le_bytes(), lim);
+	for off in [40usize, 42, 44, 46, 48, 50, 68, 70] { let v = rng.next() as u16; put(&mut b, o + off, &v.to_le_bytes(), lim); }
+	{ let v = r32v(rng); put(&mut b, o + 52, &v.to_le_bytes(), lim); }
+	let tail_end = if spec.pe64 { 108 } else { 92 };
+	let mut off = 72;
+	while off + 4 <= tail_end { let v = r32v(rng); put(&mut b, o + off, &v.to_le_bytes(), lim); off += 4; }
+	// the section table and the data directories may overlap the optional header when SizeOfOptionalHeader is small:
+	// they win, exactly as in header_bytes
+	let nrva_off = if spec.pe64 { o + 108 } else { o + 92 };
+	let (d0, d1) = (nrva_off, (nrva_off + 4 + 8 * spec.dirs.len()).min(b.len()));
+	if d0 < d1 { b[d0..d1].copy_from_slice(&fresh[d0..d1]); }
+	let st = spec.sec_table_off() as usize;
+	let (s0, s1) = (st.min(b.len()), (st + 40 * spec.secs.len()).min(b.len()));
+	if s0 < s1 { b[s0..s1].copy_from_slice(&fresh[s0..s1]); }
+	// the fields every model reads, wherever the overlaps put them
+	for (a, z) in [(0usize, 2usize), (60, 64), (nt, nt + 8), (nt + 20, nt + 22), (o, o + 2), (o + 56, o + 68)] {
+		let z = z.min(b.len());
+		if a < z { b[a..z].copy_from_slice(&fresh[a..z]); }
+	}
+	let (ib0, ib1) = if spec.pe64 { (o + 24, o + 32) } else { (o + 28, o + 32) };
+	if ib1 <= b.len() { b[ib0..ib1].copy_from_slice(&fresh[ib0..ib1]); }
+	b
+}
+
 pub fn pattern(fill: u32, i: usize) -> u8 {
 	if fill == 0 {
 		return 0;
